@@ -42,12 +42,41 @@ def build_universe(ref, Sid):
         out.append(("q:" + s, lambda s=s: Sid(s + "?bogus=1")))
     for j in ["", "bla", "bla/bla", "hamlet/zz", " ", "a:b:c", "?x=y"]:
         out.append(("str:" + j, lambda j=j: Sid(j)))
+    # names that are a prefix of a sibling continuing with a character that sorts below '/', and their children:
+    # ordering by string and ordering by parts differ exactly there
+    for t, s in conc.items():
+        segs = s.split("/")
+        for i, (k, p) in enumerate(ref.templates[t]):
+            if p is None and i < len(segs):
+                for nm in ("ab", "ab-c", "ab+c", "ab.c", "ab*", "ab c"):
+                    v = "/".join(segs[:i] + [nm] + segs[i + 1:])
+                    out.append(("str:" + v, lambda v=v: Sid(v)))
+                    out.append(("str:" + "/".join(v.split("/")[: i + 1]), lambda v=v, i=i: Sid("/".join(v.split("/")[: i + 1]))))
+                break
     seen, res = set(), []
     for l, f in out:
         if l not in seen:
             seen.add(l)
             res.append((l, f))
     return res
+
+
+def pair_violations(la, a, lb, b):
+    v = []
+    eq = (a == b)
+    if eq != (a.uri == b.uri):
+        v.append(("eq-differs-from-uri-equality", [la, lb, eq], a.uri == b.uri))
+    if eq and hash(a) != hash(b):
+        v.append(("equal-sids-hash-differently", [la, lb], "equal hashes"))
+    sb = b.string
+    if (a == sb) != (a.string == sb) or (sb == a) != (a.string == sb):
+        v.append(("sid-vs-string-equality-wrong", [la, sb, a == sb, sb == a], a.string == sb))
+    if (a != b) == eq:
+        v.append(("ne-inconsistent-with-eq", [la, lb], "not eq"))
+    if (a < b) != (a.string < b.string) or (a > b) != (a.string > b.string) or (a <= b) != (a.string < b.string or eq):
+        if not (a.string == b.string and not eq):   # total_ordering on equal strings of different type: outside the statement
+            v.append(("ordering-not-by-string", [la, lb], "by string"))
+    return v
 
 
 def run_pairs(ref, rec, index, count):
@@ -61,22 +90,8 @@ def run_pairs(ref, rec, index, count):
         for j in range(n):
             lb, b = U[j]
             nontrivial = a.string == b.string or a.uri == b.uri
-            eq = (a == b)
-            v = []
-            if eq != (a.uri == b.uri):
-                v.append(("eq-differs-from-uri-equality", [la, lb, eq], a.uri == b.uri))
-            if eq and hash(a) != hash(b):
-                v.append(("equal-sids-hash-differently", [la, lb], "equal hashes"))
-            sb = b.string
-            if (a == sb) != (a.string == sb) or (sb == a) != (a.string == sb):
-                v.append(("sid-vs-string-equality-wrong", [la, sb, a == sb, sb == a], a.string == sb))
-            if (a != b) == eq:
-                v.append(("ne-inconsistent-with-eq", [la, lb], "not eq"))
-            if (a < b) != (a.string < b.string) or (a > b) != (a.string > b.string) or (a <= b) != (a.string < b.string or eq):
-                if not (a.string == b.string and not eq):   # total_ordering on equal strings of different type: outside the statement
-                    v.append(("ordering-not-by-string", [la, lb], "by string"))
             rec.case("pair-same-string-or-uri" if nontrivial else "pair", nontrivial, sample=[la, lb])
-            for sig, obs, exp in v:
+            for sig, obs, exp in pair_violations(la, a, lb, b):
                 rec.violation(sig, "pair", [la, lb], obs, exp)
     if index == 0:
         sids = [x for _, x in U]
@@ -285,10 +300,14 @@ def replay_case(kind, case):
     from mc.ref.paths import PathsRef
     from spil import Sid
     ref = Conf()
-    if kind in ("pair", "sort"):
+    if kind == "pair":
+        U = dict(build_universe(ref, Sid))
+        la, lb = case
+        return [dict(signature=sig, observed=obs, expected=exp) for sig, obs, exp in pair_violations(la, U[la](), lb, U[lb]())]
+    if kind == "sort":
         rec = Recorder()
-        run_pairs(ref, rec, 0, 1)
-        return [v for lst in rec.violations.values() for v in lst if v["case"] == case or kind == "sort"]
+        run_pairs(ref, rec, 0, 10 ** 9)
+        return [v for lst in rec.violations.values() for v in lst]
     specs, L, S = tracked_specs(ref)
     env.clear_tree()
     tree.materialize(ref, PathsRef(), [L])
